@@ -2,10 +2,11 @@ package c04
 
 // Registry lists the harness entry points of this package for native replay.
 var Registry = map[string]func([]int64){
-	"HarnessByHash":         func(a []int64) { HarnessByHash(int(a[0])) },
-	"HarnessTips":           func(a []int64) { HarnessTips(int(a[0])) },
-	"HarnessAncestors":      func(a []int64) { HarnessAncestors(int(a[0])) },
-	"HarnessFreshAnswers":   func(a []int64) { HarnessFreshAnswers(int(a[0]), int(a[1])) },
-	"HarnessByHeight":       func(a []int64) { HarnessByHeight(int(a[0])) },
-	"HarnessCommonAncestor": func(a []int64) { HarnessCommonAncestor(int(a[0]), int(a[1])) },
+	"HarnessByHash":             func(a []int64) { HarnessByHash(int(a[0])) },
+	"HarnessTips":               func(a []int64) { HarnessTips(int(a[0])) },
+	"HarnessAncestors":          func(a []int64) { HarnessAncestors(int(a[0])) },
+	"HarnessCommonAncestorFork": func(a []int64) { HarnessCommonAncestorFork(int(a[0])) },
+	"HarnessFreshAnswers":       func(a []int64) { HarnessFreshAnswers(int(a[0]), int(a[1])) },
+	"HarnessByHeight":           func(a []int64) { HarnessByHeight(int(a[0])) },
+	"HarnessCommonAncestor":     func(a []int64) { HarnessCommonAncestor(int(a[0]), int(a[1])) },
 }
